@@ -1500,6 +1500,24 @@ def fam_uf(sh, r, cla, ref, desc):
             _uf_compare(sh, np, ref, r, cla.apply_uf(sl, uf, *args), sl, uf, S,
                         dict(c2, uf=uf, nosave=True), t2, "uf-nosave")
             _eq(sh, "uf-inputs-unmutated", _bits(np, sl) == before, True, c2, t2)
+            # the same event object, the same solution, another stiffness of the same
+            # shape (a stiffness-sensitivity run): nothing factorised for the first model
+            # may be reused for the second
+            if isol == 0:
+                S2 = dict(S)
+                scale = 1.0 + np.linspace(0.3, 0.9, S["n"])
+                S2["k"] = S["k"] * scale if S["k"].ndim == 1 else \
+                    S["k"] * np.sqrt(np.outer(scale, scale))
+                args2 = (S2["m"], S2["b"], S2["k"], S2["nrb"], S2["rf"])
+                out2 = DR.apply_uf(sl, *args2)
+                sh.count("cell:uf-event-second-stiffness")
+                for uf in uniq:
+                    _uf_compare(sh, np, ref, r, out2[uf], sl, uf, S2,
+                                dict(c2, uf=uf, second_stiffness=True), t2, "uf-event")
+                out3 = DR.apply_uf(sl, *args)          # ... and back to the first model
+                for uf in uniq:
+                    _uf_compare(sh, np, ref, r, out3[uf], sl, uf, S,
+                                dict(c2, uf=uf, back_to_first=True), t2, "uf-event")
             # frequency-domain variant
             fo = DR.frf_apply_uf(sl, S["nrb"])
             for uf in uniq:
